@@ -164,8 +164,6 @@ Lemma vfs_table_ok : validators_ok false vfs_methods = true.
 Proof. vm_compute. reflexivity. Qed.
 Lemma pt_table_ok : validators_ok true pt_methods = true.
 Proof. vm_compute. reflexivity. Qed.
-Lemma shapes_all_ok : shapes_ok = true.
-Proof. vm_compute. reflexivity. Qed.
 
 Theorem validators_vfs : forall m a r, In (m, a, r) required -> r <> RFree ->
   validated_before_effect false vfs_methods m a r.
